@@ -21,14 +21,14 @@ ASSUMPTIONS = ["DFT convention: first listed qubit least significant, QFT|x> = N
                "StateVector: circuit|0..0> * exp(i*phase) = v; uncomputing circuit maps v to exp(-i*phase')|0..0>",
                "eigenphase convention: U|psi> = exp(2 pi i phi)|psi>, U = exp(-i H t)  ->  phi = (-E t / 2 pi) mod 1"]
 ANCHORS = [
-    ("tangelo/toolboxes/ansatz_generator/ansatz_utils.py", "252-320", "QFT rotations ladder and register swap"),
+    ("tangelo/toolboxes/ansatz_generator/ansatz_utils.py", "append_qft_rotations_gates,swap_registers,get_qft_circuit", "QFT rotations ladder and register swap"),
     ("tangelo/linq/helpers/circuits/statevector.py", "StateVector", "multiplexed RY/RZ disentangling, global phase, order reversal"),
-    ("tangelo/algorithms/projective/qpe.py", "128-195,213-223", "QPE register layout, controlled powers, inverse transform, bitstring -> phase"),
-    ("tangelo/algorithms/projective/iqpe.py", "137-205,237-297", "iterative QPE feedback"),
-    ("tangelo/toolboxes/unitary_generator/trotter_suzuki.py", "56-77", "controlled time evolution"),
-    ("tangelo/toolboxes/unitary_generator/unitary_circuit.py", "52-97", "controlled user circuit"),
+    ("tangelo/algorithms/projective/qpe.py", "build,simulate,energy_estimation", "QPE register layout, controlled powers, inverse transform, bitstring -> phase"),
+    ("tangelo/algorithms/projective/iqpe.py", "build,simulate,return_gates,finalize", "iterative QPE feedback"),
+    ("tangelo/toolboxes/unitary_generator/trotter_suzuki.py", "build_circuit", "controlled time evolution"),
+    ("tangelo/toolboxes/unitary_generator/unitary_circuit.py", "build_circuit,add_controls", "controlled user circuit"),
 ]
-REQUIRED = {"qft_is_dft": 150, "state_initialisation": 150, "state_uncomputation": 150, "qpe_exact_phase": 30, "iqpe_exact_phase": 20}
+REQUIRED = {"qft_is_dft": 64, "state_initialisation": 150, "state_uncomputation": 64, "qpe_exact_phase": 15, "iqpe_exact_phase": 9}
 BUDGET = {"quick": 240, "thorough": 2400}
 TOL = 1e-9
 
